@@ -479,7 +479,11 @@ func (s *TxStore) ExistsTx(tx mwdb.ReadTransaction, out *wire.OutPoint) (mtx *wi
 		block: &BlockMeta{},
 	}
 
-	_, credKey, err := existsUnspent(nsUnspent, s.ksmgr.CurrentKeystore().Name(), out)
+	walletId, err := currentWalletName(s.ksmgr)
+	if err != nil {
+		return nil, nil, err
+	}
+	_, credKey, err := existsUnspent(nsUnspent, walletId, out)
 	if err != nil {
 		return nil, nil, err
 	}
@@ -549,7 +553,11 @@ func (s *TxStore) ExistsUtxo(tx mwdb.ReadTransaction, out *wire.OutPoint) (flags
 	}
 
 	// unspent exists
-	_, credKey, err := existsUnspent(nsUnspent, s.ksmgr.CurrentKeystore().Name(), out)
+	walletId, err := currentWalletName(s.ksmgr)
+	if err != nil {
+		return nil, err
+	}
+	_, credKey, err := existsUnspent(nsUnspent, walletId, out)
 	if err != nil {
 		return nil, err
 	}
